@@ -402,3 +402,28 @@ _amend("C17", "a second right greeting never receives protocol bytes;", "a secon
 _amend("C19", "and typed input reaches the server.",
        "and typed input reaches the server. A second test covers sessions that nothing ends but the 20 s inactivity timers (silent or mute lingering helper, quiet server or "
        "goodbye-then-silence, no Ctrl-C): an end message within 27 s, then the same hand-back checks.")
+
+# ---- after rounds 4 and 5 of seeded changes ----
+_amend("C01", "covers descriptors that grow with the file count.",
+       "covers descriptors that grow with the file count. In quiet mode the pair engine hands over the typed-nil progress bar exactly as TrzszFilter does; in directory mode "
+       "a sub-directory of the first path may be named on the command line as well.")
+_amend("C02", "repaired towards the sender) at offsets",
+       "repaired towards the sender; consistent re-coding of the hash lines / hash acknowledgements of a resumed transfer with a changed step; uncompressed files of an exact "
+       "multiple of 32 KiB with the damage inside the file data) at offsets")
+_amend("C09", "x empty / non-empty destination.",
+       "x empty / non-empty destination; a 'subtle' mode puts elements that only become a parent step once cleaned ('./..', 'x/../..') after plain first names.")
+_amend("C10", "SIGINT and SIGTERM to the real server).",
+       "SIGINT and SIGTERM to the real server, and a user who looks at the stop question for 2.2 s: the time from his choice to the end of both sides is compared with an "
+       "immediate choice at the same point).")
+_amend("C11", "the connection broken).",
+       "the connection broken; a save stage that stalls 1.2 s in front of a failing write of a long compressed stream).")
+_amend("C17", "and forged lines).",
+       "and forged lines). A connection accepted before the adoption that presents the right greeting afterwards must never be used. A second test keeps a 20 MiB transfer "
+       "running in the background (-f over its tunnel) while two more transfers run beside it through the same relays; all three must end intact.")
+_amend("C19", "then the same hand-back checks.",
+       "then the same hand-back checks. The server's data carries ZDLE bytes, also as the last byte of a read.")
+PROPS["C12"]["level_text"] += (" TestVF_C12Archive feeds generated archive streams (entry headers with every member hostile: negative / huge / non-integer sizes, odd path lists, "
+                               "permission bits, raw lines; payloads of any length) to the real archive writer in any segmentation: no panic, nothing created outside the destination.")
+PROPS["C05"]["level_text"] += (" Histories also hold a drag that is taken back (paths kept from the server by design, the key goes through, output keeps passing) and, beside every "
+                               "download the wrapper refuses by itself, 400 ms of remote lines and typed tokens that must all get through.")
+PROPS["C03"]["level_text"] += " Reads that start at a chunk boundary and end inside the next chunk may be issued with an already-fired timer: a read that times out has consumed nothing."
